@@ -38,8 +38,34 @@ var c17Subjects = []string{"", "a", "ab", "abc", "abcb", "abcbd"}
 // VerifH_C17_Glue: $match, $contains, $split, $replace and the application of a regex literal, checked
 // against the engine's (symbolic) match list.
 func VerifH_C17_Glue() {
-	s := c17Subjects[verifParam("L", 3)]
-	ms := c17Engine(c17Re, s)
+	c17Glue("(b)(c)?", c17Re, c17Subjects[verifParam("L", 3)])
+}
+
+var c17Patterns = []string{"x*", "a*", "^", "x?", "(b)(c)?", "b|", "$", "(a)|(b)", "a+?", "(?i)A", "[ab]", "(a(b)?)+"}
+var c17Regexps = func() []*regexp.Regexp {
+	var out []*regexp.Regexp
+	for _, p := range c17Patterns {
+		out = append(out, regexp.MustCompile(p))
+	}
+	return out
+}()
+
+// VerifH_C17_GlueConcrete: the same comparisons with the real engine on concrete inputs: a menu of
+// patterns that produce empty matches, matches at both ends, adjacent matches and non-participating
+// groups, on every subject of <= N characters over {a, b, x} (enumerated: the engine is run, not
+// encoded). Complements VerifH_C17_Glue, whose counterexamples need not be realisable by a pattern.
+func VerifH_C17_GlueConcrete() {
+	pi := verifChoose(len(c17Patterns))
+	n := verifChoose(verifParam("N", 3) + 1)
+	b := make([]byte, n)
+	for i := range b {
+		b[i] = "abx"[verifChoose(3)]
+	}
+	c17Glue(c17Patterns[pi], c17Regexps[pi], string(b))
+}
+
+func c17Glue(pat string, re *regexp.Regexp, s string) {
+	ms := c17Engine(re, s)
 	doc := map[string]interface{}{"s": s}
 	grp := func(m c17Match) []string {
 		// groups that did not participate are empty strings
@@ -55,10 +81,10 @@ func VerifH_C17_Glue() {
 	}
 	switch verifChoose(8) {
 	case 0: // $contains
-		got := hEval(`$contains(s, /(b)(c)?/)`, doc)
+		got := hEval("$contains(s, /"+pat+"/)", doc)
 		verifAssert(got.kind == oValue && reflect.DeepEqual(got.val, len(ms) > 0), "contains-iff-a-match")
 	case 1: // $match: all matches in order with text, offset, groups
-		got := hEval(`$match(s, /(b)(c)?/)`, doc)
+		got := hEval("$match(s, /"+pat+"/)", doc)
 		if len(ms) == 0 {
 			verifAssert(got.kind == oUndefined || got.kind == oValue, "match-none")
 			return
@@ -78,11 +104,16 @@ func VerifH_C17_Glue() {
 		for i, m := range ms {
 			verifAssert(reflect.DeepEqual(list[i]["match"], s[m.a:m.b]), "match-text")
 			verifAssert(reflect.DeepEqual(list[i]["index"], m.a), "match-offset")
-			verifAssert(reflect.DeepEqual(list[i]["groups"], grp(m)), "match-groups")
+			if want := grp(m); len(want) == 0 {
+				gv := reflect.ValueOf(list[i]["groups"])
+				verifAssert(gv.IsValid() && gv.Kind() == reflect.Slice && gv.Len() == 0, "match-groups")
+			} else {
+				verifAssert(reflect.DeepEqual(list[i]["groups"], want), "match-groups")
+			}
 		}
 	case 2: // $match with a limit
 		lim := verifChoose(4)
-		got := hEval(`$match(s, /(b)(c)?/, `+[]string{"0", "1", "2", "3"}[lim]+`)`, doc)
+		got := hEval("$match(s, /"+pat+"/, "+[]string{"0", "1", "2", "3"}[lim]+`)`, doc)
 		want := len(ms)
 		if lim < want {
 			want = lim
@@ -98,10 +129,10 @@ func VerifH_C17_Glue() {
 		}
 		verifAssert(n == want, "match-limit")
 	case 3: // negative limit is an error
-		got := hEval(`$match(s, /(b)(c)?/, -1)`, doc)
+		got := hEval("$match(s, /"+pat+"/, -1)", doc)
 		verifAssert(got.kind == oOtherError, "match-negative-limit-error")
 	case 4: // $split: the text between consecutive matches
-		got := hEval(`$split(s, /(b)(c)?/)`, doc)
+		got := hEval("$split(s, /"+pat+"/)", doc)
 		var want []string
 		pos := 0
 		for _, m := range ms {
@@ -111,18 +142,18 @@ func VerifH_C17_Glue() {
 		want = append(want, s[pos:])
 		verifAssert(got.kind == oValue && reflect.DeepEqual(got.val, want), "split-between-matches")
 	case 5: // $replace with a template
-		got := hEval(`$replace(s, /(b)(c)?/, "<$0|$1|$2|$3>")`, doc)
+		got := hEval("$replace(s, /"+pat+`/, "<$0|$1|$2|$3>")`, doc)
 		want := ""
 		pos := 0
 		for _, m := range ms {
-			gs := grp(m)
+			gs := append(grp(m), "", "") // a group the pattern does not have is empty
 			want += s[pos:m.a] + "<" + s[m.a:m.b] + "|" + gs[0] + "|" + gs[1] + "|" + ">"
 			pos = m.b
 		}
 		want += s[pos:]
 		verifAssert(got.kind == oValue && reflect.DeepEqual(got.val, want), "replace-substitutes-each-match")
 	case 6: // $replace with a limit and a function
-		got := hEval(`$replace(s, /(b)(c)?/, function($m){"[" & $m.match & ($m.index = 0 ? "@0" : "@n") & "]"}, 1)`, doc)
+		got := hEval("$replace(s, /"+pat+`/, function($m){"[" & $m.match & ($m.index = 0 ? "@0" : "@n") & "]"}, 1)`, doc)
 		want := s
 		if len(ms) > 0 {
 			m := ms[0]
@@ -134,7 +165,7 @@ func VerifH_C17_Glue() {
 		}
 		verifAssert(got.kind == oValue && reflect.DeepEqual(got.val, want), "replace-function-once-per-match-up-to-limit")
 	case 7: // applying the literal: first match, next enumerates the rest, then no value
-		got := hEval(`(/(b)(c)?/)(s)`, doc)
+		got := hEval("(/"+pat+"/)(s)", doc)
 		if len(ms) == 0 {
 			verifAssert(got.kind == oUndefined, "apply-no-match")
 			return
@@ -142,7 +173,7 @@ func VerifH_C17_Glue() {
 		verifAssert(got.kind == oValue, "apply-evaluates")
 		first, ok := got.val.(map[string]interface{})
 		verifAssert(ok && reflect.DeepEqual(first["match"], s[ms[0].a:ms[0].b]) && reflect.DeepEqual(first["start"], ms[0].a) && reflect.DeepEqual(first["end"], ms[0].b), "apply-first-match")
-		cnt := hEval(`($m := (/(b)(c)?/)(s); $n := $m.next(); $exists($n) ? ($exists($n.next()) ? 3 : 2) : 1)`, doc)
+		cnt := hEval("($m := (/"+pat+"/)(s); $n := $m.next(); $exists($n) ? ($exists($n.next()) ? 3 : 2) : 1)", doc)
 		want := len(ms)
 		if want > 3 {
 			want = 3
